@@ -216,7 +216,7 @@ func CheckHistory(c *sim.Ctx, host string, evs []sim.Ev, complete bool) {
 	for _, id := range ids {
 		ops := byId[id]
 		c.Add("history_ops", len(ops))
-		if len(ops) > 14 {
+		if len(ops) > 24 {
 			c.Count("history_too_long")
 			continue
 		}
